@@ -168,21 +168,37 @@ func VerifC15_Writes() {
 	policy := ReadPolicy(verifChoose("policy", 2))
 	u := New(m0.registry(), m1.registry(), &Options{ReadPolicy: policy})
 	ctx := context.Background()
+	// string arguments are symbolic (0 or 1 arbitrary byte): they are passed through
+	repo, repo2, tag, mt := verifString("repo", 1), verifString("repo2", 1), verifString("tag", 1), verifString("mediaType", 1)
+	dig := ociregistry.Digest(verifString("digest", 1))
 	var err error
+	var want []string
 	switch verifChoose("op", 5) {
 	case 0:
-		_, err = u.PushManifest(ctx, "repo", "tag", []byte("m"), "mt")
+		_, err = u.PushManifest(ctx, repo, tag, []byte("m"), mt)
+		want = []string{repo, tag, "m", mt}
 	case 1:
-		_, err = u.MountBlob(ctx, "from", "to", "sha256:d")
+		_, err = u.MountBlob(ctx, repo, repo2, dig)
+		want = []string{repo, repo2, string(dig)}
 	case 2:
-		err = u.DeleteBlob(ctx, "repo", "sha256:d")
+		err = u.DeleteBlob(ctx, repo, dig)
+		want = []string{repo, string(dig)}
 	case 3:
-		err = u.DeleteManifest(ctx, "repo", "sha256:d")
+		err = u.DeleteManifest(ctx, repo, dig)
+		want = []string{repo, string(dig)}
 	default:
-		err = u.DeleteTag(ctx, "repo", "tag")
+		err = u.DeleteTag(ctx, repo, tag)
+		want = []string{repo, tag}
 	}
 	verifAssert(len(m0.calls) == 1 && len(m1.calls) == 1, "write-applied-to-both-members-once")
 	verifAssert(c15sameArgs(m0, m1), "both-members-get-identical-arguments")
+	sameAsCaller := len(m0.args) == len(want)
+	if sameAsCaller {
+		for i := range want {
+			sameAsCaller = sameAsCaller && m0.args[i] == want[i]
+		}
+	}
+	verifAssert(sameAsCaller, "members-get-the-callers-arguments")
 	verifAssert((err == nil) == (m0.ok && m1.ok), "write-succeeds-only-if-both-succeed")
 	verifAssert(verifQuiesce() == 0, "no-goroutine-left-behind")
 	verifCover("end")
